@@ -285,7 +285,9 @@ def h_evaluation_start():
             yield "r"
         vm.spec.stubs["ResultQuantifier._evaluate__"] = lambda vm_, a, k: GenObj(inner(), "_evaluate__")
         vm.spec.stubs["ResultQuantifier._process_result_"] = lambda vm_, a, k: a[1]
-        out = list(vm.iterate(vm.call_method(q, "evaluate")))
+        pending = vm.call_method(q, "evaluate")
+        ctx.check("ResultQuantifier.evaluate::creating-the-iterator-does-nothing-the-evaluation-starts-with-the-first-pull", z3.BoolVal(log == []), detail=repr(log))
+        out = list(vm.iterate(pending))
         ctx.check("ResultQuantifier.evaluate::every-node-is-told-that-an-evaluation-starts-before-anything-is-pulled",
                   z3.BoolVal(sorted(map(str, log[:-1])) == sorted(map(str, [("start", "q"), ("start", 0), ("start", 1)])) and log[-1] == "pull" and out == ["r"]), detail=repr(log))
         # the tree grows (a refinement / alternative added to the rule after the first evaluation): the next evaluation tells the new node too
@@ -318,11 +320,16 @@ def harnesses():
     out = [interfering(hs[n]) for n in OPERATOR_HARNESSES if n in hs]
     hq = {h.name: h for h in C09.harnesses()}
     out += [interfering(hq[n]) for n in QUANTIFIER_HARNESSES if n in hq]
+    # a predicate / symbolic-function call shared between two positions: its per-binding lemma under the same interference
+    from . import C12
+    hp = {h.name: h for h in C12.harnesses()}
+    out += [interfering(hp[n]) for n in ("instantiate-function-2", "instantiate-predicate-2") if n in hp]
     for n in range(0, 5):
         out.append(h_hashed_iterable(n, None))
     for n, d in ((2, 0), (3, 0), (3, 1), (4, 1)):
         out.append(h_hashed_iterable(n, d))
-    out += [h_evaluation_start(), h_canary()]
+    from .C13 import h_live_domain          # what an evaluation start re-binds (live domains) and whom the descriptor tells
+    out += [h_evaluation_start(), h_live_domain(), h_canary()]
     return out
 
 
